@@ -90,6 +90,11 @@ def exact_cells(prog, res, bfi, cells):
             if p.outcome != 'return' or p.tainted or p.unknowns:
                 blocked = f'{p.outcome} {p.value!r}' if p.outcome != 'return' else f'{(p.tainted or p.unknowns)[0]}'
                 continue
+            if p.facts:
+                # the path took a decision the abstraction could not make from the cell (a generic element, symbolic data):
+                # its result is not "the" result of the cell
+                blocked = f'decision on {p.facts[0][0]} not fixed by the cell'
+                continue
             v = p.interp.resolve(p.value)
             vals.add(v.value if isinstance(v, ConstV) else repr(v))
         wrong = {v for v in vals if v != want}
@@ -237,8 +242,10 @@ def check(prog, res, tier):
         v = it.sym_str('encoding_name', lo=1)
         it.user['enc_ret'] = v
         return v
-    runs_i = Runs(prog, entry_i, summaries={'mciipm.bitmap_check': bm_summary, 'mciipm.block_1014_check': blk_summary,
-                                            'mciipm.encoding_check': enc_summary}, res=res)
+    # the helpers may have moved (static methods with module-level aliases...): key the summaries by what the names resolve to
+    runs_i = Runs(prog, entry_i, summaries={prog.func('mciipm.bitmap_check').short: bm_summary,
+                                            prog.func('mciipm.block_1014_check').short: blk_summary,
+                                            prog.func('mciipm.encoding_check').short: enc_summary}, res=res)
 
     def first_len(p):
         for e in p.events:
@@ -316,9 +323,13 @@ def check(prog, res, tier):
             def at(arg, lo, hi):
                 return isinstance(arg, SeqV) and len(arg.segs) == 1 and isinstance(arg.segs[0], Sl) and \
                     st.decide_eq0(arg.segs[0].lo - base - lo) is True and st.decide_eq0(arg.segs[0].hi - base - hi) is True
-            if not at(it.user.get('bm_arg'), 8, 24):
+            if it.user.get('bm_arg') is None:
+                fails.append(soft('no call of bitmap_check was observed'))
+            elif not at(it.user.get('bm_arg'), 8, 24):
                 fails.append(definite(f'bitmap_check is given {it.user.get("bm_arg")!r}, not bytes 8-23'))
-            if not at(it.user.get('enc_arg'), 4, 8):
+            if it.user.get('enc_arg') is None:
+                fails.append(soft('no call of encoding_check was observed'))
+            elif not at(it.user.get('enc_arg'), 4, 8):
                 fails.append(definite(f'encoding_check is given {it.user.get("enc_arg")!r}, not the MTI bytes 4-7'))
             ba = it.user.get('blk_arg')
             if not (isinstance(ba, SeqV) and seqops.seq_eq_structural(it, ba, sample) is True):
